@@ -253,7 +253,7 @@ func (p *Program) ifaceMethod(m *types.Func) (*FuncContract, *FuncContract) {
 			continue
 		}
 		for i := 0; i < it.NumExplicitMethods(); i++ {
-			if it.ExplicitMethod(i) == m {
+			if it.ExplicitMethod(i) == m || it.ExplicitMethod(i) == m.Origin() {
 				return ic, ic.Methods[m.Name()]
 			}
 		}
